@@ -33,7 +33,8 @@ class Gen:
     # swarm: which feature families this module draws from (each p ~ 0.5).
     # `rich=False` keeps the original narrow generator.
     self.prof = {k: (rich and rng.random() < 0.5)
-                 for k in ("hier", "multi_up", "flow", "generic", "alias", "proto")}
+                 for k in ("hier", "multi_up", "flow", "generic", "alias", "proto",
+                           "outside")}
 
   def fresh(self, prefix):
     self.n += 1
@@ -611,6 +612,27 @@ class Gen:
     if broken and r.random() < 0.5:
       self.emit("%s = %s(%s)" % (self.fresh("e"), fn, self.scalar()))
 
+  def gen_outside_attrs(self):
+    """Many instances of one class whose attribute is filled in from outside
+    with differing types (the "self.value = None in __init__, set later"
+    pattern); the instance count straddles small thresholds."""
+    r = self.r
+    cn = self.fresh("C")
+    self.emit("class %s:" % cn)
+    self.emit("  def __init__(self):")
+    self.emit("    self.value = None")
+    self.emit("    self.tag = %s" % self.scalar())
+    self.emit()
+    self.bases_of[cn] = []
+    self.classes.append((cn, ["value", "tag"], []))
+    n = r.choice([2, 3, 5, 8, 9, 10, 12, 17])
+    vals = ["1", "'s'", "[1]", "1.5", "b'x'", "{'k': 1}", "(1, 's')", "True"]
+    for i in range(n):
+      o = self.fresh("o")
+      self.emit("%s = %s()" % (o, cn))
+      self.emit("%s.value = %s" % (o, vals[i % len(vals)] if r.random() < 0.8 else self.scalar()))
+      self.consts.append((o, "inst"))
+
   def gen_alias(self):
     r = self.r
     k = r.random()
@@ -669,9 +691,12 @@ class Gen:
       for _ in range(r.randrange(2, 4)):
         self.gen_class()
     proto_at = r.randrange(size) if prof["proto"] else -1
+    outside_at = r.randrange(size) if prof["outside"] and r.random() < 0.6 else -1
     for stmt_no in range(size):
       if stmt_no == proto_at:
         self.gen_protocol(broken=self.errors)
+      if stmt_no == outside_at:
+        self.gen_outside_attrs()
       if self.fork and stmt_no == self.fork[0]:
         import random as _random
         r = self.r = _random.Random(self.fork[1])
